@@ -77,7 +77,7 @@ func build(sc scen) *netsim.Scenario {
 			return c
 		}
 		// the p2p message of an X round must stay bound to the broadcast this recipient gets
-		if sc.Spec[sc.Round-2] == 'X' {
+		if k := sc.Spec[sc.Round-2]; k == 'X' || k == 'Y' {
 			var p vproto.Msg
 			if cbor.Unmarshal(m.Data, &p) != nil {
 				return m
@@ -210,7 +210,7 @@ func scenarios() []scen {
 		spec string
 		n    int
 	}
-	cfgs := []cfg{{"BB", 3}, {"XB", 3}, {"BP", 3}, {"BXB", 3}}
+	cfgs := []cfg{{"BB", 3}, {"XB", 3}, {"BP", 3}, {"BXB", 3}, {"NB", 3}, {"BNP", 3}, {"YN", 3}}
 	modes := []string{"own", "tailored", "nil"}
 	if vkit.Thorough() {
 		cfgs = append(cfgs, cfg{"BA", 3}, cfg{"XPB", 3}, cfg{"BB", 4}, cfg{"XB", 4})
@@ -218,7 +218,7 @@ func scenarios() []scen {
 	for _, c := range cfgs {
 		R := len(c.spec) + 1
 		for r := 2; r < R; r++ { // a further round must follow
-			if c.spec[r-2] != 'B' && c.spec[r-2] != 'X' {
+			if k := c.spec[r-2]; k != 'B' && k != 'X' && k != 'N' && k != 'Y' {
 				continue
 			}
 			equivs := []string{"a", "c"}
